@@ -8,7 +8,7 @@ package ruler
 // the submitted data (C05, C08, C03 approve-before-sign). Nothing more is promised about the verdicts.
 
 //@ spec locking(action string) bool = action == ActionSign || action == ActionSignBeaconProposal || action == ActionSignBeaconAttestation
-//@ spec wellformedData(action string, rd *RulesData) bool = (action == ActionSignBeaconAttestation && hastype(rd.Data, "*rules.SignBeaconAttestationData") ==> unbox(rd.Data, "*rules.SignBeaconAttestationData") != nil && unbox(rd.Data, "*rules.SignBeaconAttestationData").Source != nil && unbox(rd.Data, "*rules.SignBeaconAttestationData").Target != nil) && (action == ActionSignBeaconProposal && hastype(rd.Data, "*rules.SignBeaconProposalData") ==> unbox(rd.Data, "*rules.SignBeaconProposalData") != nil) && (action == ActionSign && hastype(rd.Data, "*rules.SignData") ==> unbox(rd.Data, "*rules.SignData") != nil)
+//@ spec wellformedData(action string, rd *RulesData) bool = (action == ActionSignBeaconAttestation && hastype(rd.Data, "*rules.SignBeaconAttestationData") ==> unbox(rd.Data, "*rules.SignBeaconAttestationData") != nil && unbox(rd.Data, "*rules.SignBeaconAttestationData").Source != nil && unbox(rd.Data, "*rules.SignBeaconAttestationData").Target != nil && cap(unbox(rd.Data, "*rules.SignBeaconAttestationData").Domain) >= 4) && (action == ActionSignBeaconProposal && hastype(rd.Data, "*rules.SignBeaconProposalData") ==> unbox(rd.Data, "*rules.SignBeaconProposalData") != nil && cap(unbox(rd.Data, "*rules.SignBeaconProposalData").Domain) >= 4) && (action == ActionSign && hastype(rd.Data, "*rules.SignData") ==> unbox(rd.Data, "*rules.SignData") != nil && cap(unbox(rd.Data, "*rules.SignData").Domain) >= 4)
 
 // Implementation obligations (services/ruler/golang is proved to refine them) and, marked aux-ensures, the bookkeeping of
 // the auxiliary variable tokroot: an approval creates the only pending approval for that key. The aux clauses are a
